@@ -471,7 +471,7 @@ def _classes(case):
 SUBCHECKS = [
     SubCheck("remove_stations", check_remove_stations, strategy=cases(), nontrivial=_nt, classes=_classes, quick=240, thorough=12000,
              shards_quick=8, shards_thorough=16,
-             rule="remove_stns_sinex: strict parse; header width / fields / count / creation stamp; SITE/ID, EPOCHS, ESTIMATE = remaining "
+             fresh=(8, 64, 3), rule="remove_stns_sinex: strict parse; header width / fields / count / creation stamp; SITE/ID, EPOCHS, ESTIMATE = remaining "
                   "lines (renumbered); matrix = original minus removed rows / columns, same triangle; second run at another clock "
                   "differs only in the creation stamp and the 'File created' comment"),
     SubCheck("remove_stations_all_subsets", check_all_subsets, strategy=cases(max_sets=8), nontrivial=_nt, classes=_classes, quick=40,
